@@ -867,7 +867,7 @@ func c13Entity(c *an.Ctx, wpk *types.Package) {
 		}
 		sort.Strings(names)
 		for _, n := range names {
-			cut := an.InfeasibleUnder(g, isEt, ents[n]).Union(errNonNil)
+			cut := an.InfeasibleUnderV(g, isEt, ents[n]).Union(errNonNil)
 			wantNone := n == "EntityFile" || n == "EntitySymlink"
 			nRet := 0
 			reach := an.ReachSet(g, nf, cut, nil)
@@ -940,7 +940,7 @@ func c13Entity(c *an.Ctx, wpk *types.Package) {
 			continue
 		}
 		isSubj := func(v ssa.Value) bool { return types.Identical(v.Type(), dt.Type()) }
-		if len(an.InfeasibleUnder(det, isSubj, constant.MakeInt64(0))) == 0 {
+		if len(an.InfeasibleUnderV(det, isSubj, constant.MakeInt64(0))) == 0 {
 			continue
 		}
 		// start of the dispatch: the call producing the type value, or entry for a parameter
@@ -956,7 +956,7 @@ func c13Entity(c *an.Ctx, wpk *types.Package) {
 			if wantEnt == "" {
 				wantEnt = "EntityUnknown"
 			}
-			cut := an.InfeasibleUnder(det, isSubj, k.Val())
+			cut := an.InfeasibleUnderV(det, isSubj, k.Val())
 			reach := an.ReachSet(det, from, cut, nil)
 			for _, in := range an.SortedInstrs(reach) {
 				r, ok := in.(*ssa.Return)
@@ -1183,13 +1183,13 @@ func c13CollectKinds(c *an.Ctx, wpk *types.Package) {
 		}
 		kv := an.Aliases(kcalls[0])
 		isK := func(v ssa.Value) bool { return kv[v] }
-		if len(an.InfeasibleUnder(fn, isK, kinds["Kind_Link"])) == 0 {
+		if len(an.InfeasibleUnderV(fn, isK, kinds["Kind_Link"])) == 0 {
 			continue
 		}
 		nFn++
 		name := an.FuncName(fn)
 		for _, n := range []string{"Kind_Link", "Kind_Map", "Kind_List"} {
-			cut := an.InfeasibleUnder(fn, isK, kinds[n])
+			cut := an.InfeasibleUnderV(fn, isK, kinds[n])
 			reach := an.ReachSet(fn, kcalls[0], cut, nil)
 			appends, recurses, iter := false, false, false
 			for _, in := range an.SortedInstrs(reach) {
